@@ -21,6 +21,7 @@
                                                                            `smallBoolean`, `cmpUnbounded`
   * `-*:*` is only `MatchNoDocs` as a whole query; `NOT *:*` is folded to `MatchNoDocs`;
     `NOT NOT x` inside an `AND` group loses its parentheses            → `noneNested`, `notAll`, `notNotInAnd`
+    (`NOT *:*` as an element of a Boolean group is fine)
 -/
 import VrlModel.Search.Visitor
 
@@ -147,7 +148,7 @@ def leafDefects (F : FloatLib) : Leaf → List (Bool × Defect)
   | .wildcard a w =>
     attrDefects a ++
       [(w.isEmpty, .emptyString), (!rawGlobChars w, .wildcardRaw), (hasU3000 w, .unicode3000),
-       (!w.any isGlobChar || prefixShape w, .wildcardReparsed),
+       (!(w.any isGlobChar || kwStart w) || prefixShape w, .wildcardReparsed),
        (a = defaultField && (w == ['*'] || kwStart w || qmarkAfterPlain w), .wildcardReparsed)]
   | .comparison a _ v => attrDefects a ++ cvDefectsCmp F v
   | .range a lo li hi ui =>
@@ -163,13 +164,9 @@ def orElse : Option Defect → Option Defect → Option Defect
   | some d, _ => some d
   | none, o => o
 
-/-- `n` is `NOT (NOT _)` -/
-def negOfNeg : QNode → Bool
-  | .neg m => m.isNeg
-  | _ => false
-
 mutual
-  /-- first defect of a tree (pre-order) -/
+  /-- first defect of a tree printed as a whole (sub)query: the root, the operand of `NOT ( … )`, a
+      parenthesised Boolean (pre-order) -/
   def defectOf (F : FloatLib) : QNode → Option Defect
     | .leaf l => leafDefect F l
     | .neg n => orElse (if isMatchAll n then some .notAll else none) (defectOf F n)
@@ -177,9 +174,14 @@ mutual
       orElse (if ns.length < 2 then some .smallBoolean else none) (defectOfList F op ns)
   def defectOfList (F : FloatLib) (op : BoolOp) : QList → Option Defect
     | .nil => none
-    | .cons n ns =>
-      orElse (orElse (if op = .and && negOfNeg n then some .notNotInAnd else none) (defectOf F n))
-        (defectOfList F op ns)
+    | .cons n ns => orElse (defectOfItem F op n) (defectOfList F op ns)
+  /-- first defect of an element of an `AND` / `OR` group: `NOT *:*` is fine there, `NOT NOT x`
+      is not inside `AND` -/
+  def defectOfItem (F : FloatLib) (op : BoolOp) : QNode → Option Defect
+    | .leaf l => leafDefect F l
+    | .neg n => orElse (if op = .and && n.isNeg then some .notNotInAnd else none) (defectOf F n)
+    | .bool op' ns =>
+      orElse (if ns.length < 2 then some .smallBoolean else none) (defectOfList F op' ns)
 end
 
 /-- defect of a whole query: `MatchNoDocs` is fine as the root -/
@@ -204,7 +206,7 @@ def rangeValueOK (F : FloatLib) : CV → Bool
   | cv => rangeBoundOK F cv
 
 def wildcardOK (a w : Str) : Bool :=
-  !w.isEmpty && rawGlobChars w && !hasU3000 w && w.any isGlobChar && !prefixShape w &&
+  !w.isEmpty && rawGlobChars w && !hasU3000 w && (w.any isGlobChar || kwStart w) && !prefixShape w &&
   !(a = defaultField && (w == ['*'] || kwStart w || qmarkAfterPlain w))
 
 /-- leaves that print to a clause which parses back to themselves -/
@@ -221,14 +223,20 @@ def NFLeaf (F : FloatLib) : Leaf → Bool
   | .range a lo li hi ui => attrOK a && li == ui && rangeValueOK F lo && rangeValueOK F hi
 
 mutual
-  /-- normal form: the trees `parse (to_lucene t) = t` is proved for -/
+  /-- normal form of a tree printed as a whole (sub)query: the trees `parse (to_lucene t) = t` is
+      proved for -/
   def NF (F : FloatLib) : QNode → Bool
     | .leaf l => NFLeaf F l
     | .neg n => !isMatchAll n && NF F n
     | .bool op ns => decide (2 ≤ ns.length) && NFList F op ns
   def NFList (F : FloatLib) (op : BoolOp) : QList → Bool
     | .nil => true
-    | .cons n ns => !(op = .and && negOfNeg n) && NF F n && NFList F op ns
+    | .cons n ns => NFItem F op n && NFList F op ns
+  /-- normal form of an element of an `AND` / `OR` group -/
+  def NFItem (F : FloatLib) (op : BoolOp) : QNode → Bool
+    | .leaf l => NFLeaf F l
+    | .neg n => !(op = .and && n.isNeg) && NF F n
+    | .bool op' ns => decide (2 ≤ ns.length) && NFList F op' ns
 end
 
 /-- normal form of a whole query -/
